@@ -104,6 +104,9 @@ func init() {
 			{Pkg: "scen/s2", Scen: "feed", Cfg: "", Seams: seamsS2, Quick: 12000, Thorough: 600000, ThoroughSecs: 900,
 				Real: []string{"v2/d2 update loops, snapshots, host selection incl. the package-level random generator (a real unsynchronised math/rand source is stepped on every draw), v2/d2/lazymap"},
 				Stub: []string{"ZooKeeper / TreeCache (channel feed)", "values handed out by the random source", "map iteration order in package d2"}},
+			s4race("outcomes=errors", 2500, 200000),
+			s4race("late=1,filters=1,mounts=bare+mux+prefix", 2500, 200000),
+			s4race("faults=lossy", 1500, 100000),
 		},
 		Rule: "runs of scenarios S1-registry, S2-feed and S4-rpc under `go test -race` with the serial token scheduler: N concurrent tasks sharing one registry / one d2.Client / one handler and client. A run is non-trivial when at least two tasks touch the shared object; distinct by workload text.",
 		Assume: []string{
@@ -123,6 +126,13 @@ var s4Assume = []string{"the binding family (family/family.manifest.json: 12 typ
 // s4b is one S4 batch without the race detector (semantic oracles decide; races are C17's).
 func s4b(scen, cfg string, quick, thorough int) Batch {
 	return Batch{Pkg: "scen/s4", Scen: scen, Cfg: cfg, Seams: seamsS4, Family: true, NoRace: true, Quick: quick, Thorough: thorough, ThoroughSecs: 1200, Real: s4Real, Stub: s4Stub}
+}
+
+// s4race is an S4 batch under the race detector (C17).
+func s4race(cfg string, quick, thorough int) Batch {
+	b := s4b("rpc", cfg, quick, thorough)
+	b.NoRace = false
+	return b
 }
 
 func init() {
